@@ -16,7 +16,8 @@ from vlib.h_idle import install_speedups
 from vlib.h_handlers import conc  # noqa: F401  (imported at module level: registers its CrossHair patch before the analysis starts)
 from vlib.ob import obligation
 from vlib.world import (
-    EVA, EVB, EVC, MYSTOP, STOP, EvA, EvB, EvC, MyStop, StartEvent, StubPolicy, world_ab, world_ab_valid,
+    EVA, EVB, EVC, MYSTOP, STOP, EvA, EvB, EvC, MyStop, StartEvent, StubPolicy, broker, in_progress, step_config, worker_state, world_ab,
+    world_ab_valid,
 )
 
 from workflows import Context, Workflow, step  # noqa: F401  (module scope: step annotations are resolved against it)
@@ -147,6 +148,50 @@ def ob_exit_shape(nw: int, b0: bool, b1: bool, q: int, wk: int, tk: int, kind: i
     if ek == 3:
         return st2.is_running == st.is_running
     return st2.is_running is False
+
+
+@obligation(quick=120, thorough=300, partitions_quick=[f"pol == {p}" for p in range(4)],
+            what="reducer, step failure in a workflow WITH @catch_error handlers (wildcard handler, recovery budget symbolic: unused, partly "
+                 "used, spent; the failing step an ordinary step or the handler itself): whenever the tick ends the run, the exit command is "
+                 "preceded by exactly one terminal publish of the matching class carrying the same exception; whenever it does not, nothing "
+                 "terminal is published",
+            bounds={"max_recoveries": "1..2", "recoveries already used by the lineage": "0..3", "policy": "None/0/delay/raises", "failing step": "s1 / handler"})
+def ob_exit_shape_with_handlers(m: int, rc: int, pol: int, in_handler: bool, has_hw: bool) -> bool:
+    """
+    pre: 1 <= m <= 2 and 0 <= rc <= 3 and 0 <= pol <= 3
+    pre: has_hw or not in_handler
+    post: _
+    """
+    from workflows.events import StepFailedEvent
+    from workflows.representation.validate import _collect_catch_error_handlers
+
+    cfgs = {"s1": step_config([StartEvent, EvA], 1, StubPolicy(pol)), "s2": step_config([EvB], 1, None)}
+    if has_hw:
+        cfgs["hw"] = step_config([StepFailedEvent], 1, None, role="catch_error", for_steps=None, max_recoveries=m)
+    handlers, hfs = _collect_catch_error_handlers(cfgs)
+    failing = "hw" if in_handler else "s1"
+    ev = EVA
+    if in_handler:
+        ev = StepFailedEvent(step_name="s1", exception=ValueError("first"), input_event=EVA, attempts=1, elapsed_seconds=0.0,
+                             failed_at=__import__("datetime").datetime(2025, 1, 1, tzinfo=__import__("datetime").timezone.utc))
+    ips = {n: [] for n in cfgs}
+    ips[failing] = [in_progress(failing, ev, 0, recovery_counts=({"hw": rc} if rc else {}))]
+    st = broker({n: worker_state(c, [], ips[n], {}, []) for n, c in cfgs.items()}, handlers=handlers, handler_for_step=hfs)
+    tick = TickStepResult.model_construct(step_name=failing, worker_id=0, event=ev,
+                                          result=[StepWorkerFailed.model_construct(exception=_ERR, failed_at=1.0)])
+    st2, cmds = _reduce_tick(tick, st, 3, "r")
+    exits = [i for i, c in enumerate(cmds) if indicates_exit(c)]
+    terminals = [i for i, c in enumerate(cmds) if isinstance(c, CommandPublishEvent) and _terminal_kind(c.event) != 0]
+    if not exits:
+        return not terminals and st2.is_running == st.is_running
+    if len(exits) != 1 or len(terminals) != 1 or terminals[0] > exits[0]:
+        return False
+    for j in range(terminals[0] + 1, len(cmds)):
+        if isinstance(cmds[j], CommandPublishEvent):
+            return False
+    if _exit_kind(cmds[exits[0]]) != 2 or _terminal_kind(cmds[terminals[0]].event) != 2:
+        return False
+    return cmds[exits[0]].exception is cmds[terminals[0]].event.exception and st2.is_running is False
 
 
 class _Adapter(InternalRunAdapter):
